@@ -931,21 +931,70 @@ fn run_scale(plan: &Plan, lib: &dyn Lib, rec: &mut Rec) {
     let n = plan.get("n").clamp(16, 1 << 17) as usize;
     let pop = plan.class == "registry-scale";
     let prop = if pop { "C09" } else { "C02" };
-    let scheme = [plan.get("scheme") as u8];
+    let scheme = plan.get("scheme") as u8;
+    // a process of its own: what the 16 simulation workers of this process register at the same time must not end up in
+    // the same process-wide table (the table's slots would be recycled at other moments than the ones probed below)
+    let _ = lib;
+    let exe = std::env::current_exe().unwrap();
+    let o = std::process::Command::new(&exe).args(["scale-child", if pop { "pop" } else { "sig" }, &plan.get("g").to_string(), &n.to_string(), &scheme.to_string(), &plan.seed.to_string()]).output();
+    let out = match o {
+        Ok(o) if o.status.success() => String::from_utf8_lossy(&o.stdout).to_string(),
+        Ok(o) => {
+            rec.expect(prop, "no-abort", false, || format!("scale child process g={} n={} | exited with {:?}: {}", g.name(), n, o.status.code(), String::from_utf8_lossy(&o.stderr).lines().last().unwrap_or("")));
+            return;
+        }
+        Err(e) => {
+            rec.note(format!("harness note: scale child could not be started: {}", e));
+            return;
+        }
+    };
+    rec.case(&[if pop { 9 } else { 2 }, g as u64, n as u64, 4242], true);
+    let what = if pop { "proof of possession" } else { "signature" };
+    let mut offered = 0u64;
+    for line in out.lines() {
+        let f: Vec<&str> = line.split(' ').collect();
+        match f.as_slice() {
+            ["OWN-REFUSED", i, when] => { rec.expect(prop, if pop { "honest-pop-verifies" } else { "honest-signature-verifies-control" }, false, || format!("scale {} g={} | key #{} of {}: its own {} is refused", when, g.name(), i, n, what)); }
+            ["CROSS-ACCEPTED", i, j, d] => { rec.expect(prop, if pop { "accepted-iff-made-by-that-key" } else { "other-key-rejected" }, false, || format!("scale after {} registrations g={} | key #{} accepts the {} of key #{} (registered {} later)", n, g.name(), i, what, j, d)); }
+            ["DONE", calls, offers] => {
+                rec.stats.lib_calls += calls.parse::<u64>().unwrap_or(0);
+                offered = offers.parse().unwrap_or(0);
+                rec.expect(prop, if pop { "honest-pop-verifies" } else { "honest-signature-verifies-control" }, true, String::new);
+            }
+            _ => {}
+        }
+    }
+    rec.expect(prop, "no-abort", offered > 0, || format!("scale child process g={} n={} | produced no result", g.name(), n));
+    rec.sample(|| format!("{} keys registered in one process of its own, {} cross offers, g={}", n, offered, g.name()));
+}
+
+/// the registrar process of `run_scale`: `scale-child <pop|sig> <g> <n> <scheme> <seed>`
+pub fn scale_child_main(args: &[String]) -> i32 {
+    let env = crate::env::env();
+    let lib = env.cur;
+    let pop = args[0] == "pop";
+    let g = grp_of(args[1].parse().unwrap_or(0));
+    let n: usize = args[2].parse().unwrap_or(64);
+    let scheme = [args[3].parse::<u8>().unwrap_or(0)];
+    let seed: u64 = args[4].parse().unwrap_or(1);
+    kernel::seams::set_entropy(Some(Xo::new(seed)));
     let msg = b"the one message every key signs".to_vec();
     let mut pks: Vec<Vec<u8>> = Vec::with_capacity(n);
     let mut proofs: Vec<Vec<u8>> = Vec::with_capacity(n);
+    let mut calls = 0u64;
+    let verify = |pr: &[u8], pk: &[u8]| if pop { lib.call(g, Op::PopVerify, &[pr, pk]) } else { lib.call(g, Op::Verify, &[pr, pk, &msg]) };
     for i in 0..n {
-        let sk = refimpl::scalar_to_be(&refimpl::keygen(&[&plan.seed.to_le_bytes()[..], &(i as u64).to_le_bytes()[..]].concat()));
-        let Some(pk) = rec.call(lib, g, Op::PublicKey, &[&sk]).first().map(|v| v.to_vec()) else { return };
-        let made = if pop { rec.call(lib, g, Op::Pop, &[&sk]) } else { rec.call(lib, g, Op::Sign, &[&sk, &scheme, &msg]) };
-        let Some(pr) = made.first().map(|v| v.to_vec()) else { return };
-        let ok = if pop { rec.call(lib, g, Op::PopVerify, &[&pr, &pk]) } else { rec.call(lib, g, Op::Verify, &[&pr, &pk, &msg]) };
-        rec.expect(prop, if pop { "honest-pop-verifies" } else { "honest-signature-verifies-control" }, ok.is_ok(), || format!("scale registration #{} of {} g={} | the key's own {} is refused: {:?}", i, n, g.name(), if pop { "proof of possession" } else { "signature" }, ok.kind()));
+        let sk = refimpl::scalar_to_be(&refimpl::keygen(&[&seed.to_le_bytes()[..], &(i as u64).to_le_bytes()[..]].concat()));
+        let Some(pk) = lib.call(g, Op::PublicKey, &[&sk]).first().map(|v| v.to_vec()) else { return 2 };
+        let made = if pop { lib.call(g, Op::Pop, &[&sk]) } else { lib.call(g, Op::Sign, &[&sk, &scheme, &msg]) };
+        let Some(pr) = made.first().map(|v| v.to_vec()) else { return 2 };
+        if !verify(&pr, &pk).is_ok() {
+            println!("OWN-REFUSED {} at-registration", i);
+        }
+        calls += 3;
         pks.push(pk);
         proofs.push(pr);
     }
-    rec.case(&[if pop { 9 } else { 2 }, g as u64, n as u64, 4242], true);
     let mut k = 1usize;
     let mut offered = 0u64;
     while k < n {
@@ -956,20 +1005,21 @@ fn run_scale(plan: &Plan, lib: &dyn Lib, rec: &mut Rec) {
                     continue;
                 }
                 offered += 1;
-                let o = if pop { rec.call(lib, g, Op::PopVerify, &[&proofs[j], &pks[i]]) } else { rec.call(lib, g, Op::Verify, &[&proofs[j], &pks[i], &msg]) };
-                rec.expect(prop, if pop { "accepted-iff-made-by-that-key" } else { "other-key-rejected" }, !o.is_ok(), || format!("scale after {} registrations g={} | key #{} accepts the {} of key #{} (registered {} later)", n, g.name(), i, if pop { "proof of possession" } else { "signature" }, j, d));
+                calls += 1;
+                if verify(&proofs[j], &pks[i]).is_ok() {
+                    println!("CROSS-ACCEPTED {} {} {}", i, j, d);
+                }
             }
         }
         k *= 2;
     }
-    // and the early keys still accept their own
     for i in [0usize, 1, 2, 5, 64] {
-        if i < n {
-            let o = if pop { rec.call(lib, g, Op::PopVerify, &[&proofs[i], &pks[i]]) } else { rec.call(lib, g, Op::Verify, &[&proofs[i], &pks[i], &msg]) };
-            rec.expect(prop, if pop { "honest-pop-verifies" } else { "honest-signature-verifies-control" }, o.is_ok(), || format!("scale after {} registrations g={} | key #{} no longer accepts its own", n, g.name(), i));
+        if i < n && !verify(&proofs[i], &pks[i]).is_ok() {
+            println!("OWN-REFUSED {} after-all-registrations", i);
         }
     }
-    rec.sample(|| format!("{} keys registered in one process, {} cross offers, g={}", n, offered, g.name()));
+    println!("DONE {} {}", calls, offered);
+    0
 }
 
 /// C03: the draft's Aggregate over VERY long lists (2^17 + 1 and more signatures of two signers, alternating): the sum
